@@ -63,7 +63,15 @@ def _run_all(files, budget, baseline, rows):
     if f.endswith('patch.diff'):
       meta = json.load(open(os.path.join(os.path.dirname(f), 'meta.json')))
       props = meta['property'] if isinstance(meta['property'], list) else [meta['property']]
+      # 'checked_by': the change breaks its property only under conditions that
+      # ANOTHER claimed property quantifies over (e.g. two threads): that check
+      # is the one expected to see it
+      props = meta.get('checked_by', props)
       name = 'seeded/' + os.path.basename(os.path.dirname(f))
+      if meta.get('out_of_scope') or meta.get('obsolete'):
+        rows.append((name, '/'.join(props), 'NOT-RUN',
+                     (meta.get('out_of_scope') or meta.get('obsolete'))[:120]))
+        continue
     else:
       name = os.path.basename(f)[:-6]
       props = name.split('-')[0].split('+')
